@@ -59,7 +59,26 @@ func alphabet() []step {
 	return a
 }
 
+// deep (thorough tier): 3-step chains over a larger alphabet
+var deep bool
+
 func reducedAlphabet() []step {
+	if deep {
+		a := alphabet()
+		var out []step
+		for i, s := range a {
+			// keep one raise per three error kinds to bound the cube
+			if strings.Contains(s.Src, "raise") && i%3 != 0 {
+				continue
+			}
+			out = append(out, s)
+		}
+		return out
+	}
+	return reducedAlphabetQuick()
+}
+
+func reducedAlphabetQuick() []step {
 	return []step{{Src: ".+(1)"}, {Src: "./(0)"}, {Src: ".foo", Tag: "absent"}, {Src: ".S", Tag: "wrapper-defined"}, {Src: `.{|x| "s".p; x}`}, {Src: `.{|x| "s".p; nil}`},
 		{Src: `.{|x| "s".p; raise TypeErr.new("m7")}`}, {Src: `.{|x| "s".p; 1 / 0}`}, {Src: ".^idf"}, {Src: ".bad", Obj: true}, {Src: ".v", Tag: "noncallable", Obj: true}}
 }
@@ -279,7 +298,8 @@ func run(c *core.Ctx) {
 	var pending *tcase
 	var plainObs panrun.Obs
 	total := tk.Batched(c, 1000, prelude, func(emit func(pair)) {
-		gen(c.Thorough(), func(t tcase) {
+		deep = c.Thorough()
+		gen(true, func(t tcase) {
 			emit(pair{t, false})
 			emit(pair{t, true})
 		})
